@@ -1018,7 +1018,8 @@ def real_roundtrip(kind, x):
             raise RuntimeError(kind)
         sentinel = b"\xa5\x5a\xff"
         data = b.getvalue() + sentinel
-        inf = io.BytesIO(data)
+        # budgeted: a reader out of step with its writer may take a garbage length for a list and never stop
+        inf = GuardedIO(data, 400000 + 60 * len(data))
         got = cv(rd(inf))
         if got != x:
             return "read back %s" % _short(_first_diff(x, got))
@@ -1026,7 +1027,7 @@ def real_roundtrip(kind, x):
             return "reader stopped at byte %d of %d" % (inf.tell(), len(data) - len(sentinel))
         if kind == "ra":
             # the abridged reader on the same bytes: same end position, projection of the record
-            inf2 = io.BytesIO(data)
+            inf2 = GuardedIO(data, 400000 + 60 * len(data))
             if x["exons"]:
                 q = IA.BasicReadAssignment.deserialize_from_read_assignment(inf2)
                 if data[inf2.tell():] != sentinel:
@@ -1034,6 +1035,8 @@ def real_roundtrip(kind, x):
                 exp = j_basic(IA.BasicReadAssignment(mk_ra(x)), True)
                 if j_basic(q, True) != exp:
                     return "abridged reader: %s" % _short(_first_diff(exp, j_basic(q, True)))
+    except Budget:
+        return "the reader does not stop on a stream the writer produced (read budget exhausted)"
     except (WRITE_ERRORS + (UnicodeError,)) as ex:
         return "exception %s: %s" % (type(ex).__name__, str(ex)[:200])
     return None
